@@ -110,8 +110,10 @@ func (s *kState) MarkCommittingViewUpdated() {
 	// The state machine view only needs updated if synchronized with the voting view.
 	if smh == s.Committing.Height && smr == s.Committing.Round {
 		s.StateMachineViewManager.SetView(s.Committing)
-	} else if (smh < s.Committing.Height) ||
-		(smh == s.Committing.Height && smr < s.Committing.Round) {
+	} else if smh == s.Committing.Height && smr < s.Committing.Round {
+		// A jump ahead can only move the state machine to a later round of its own height.
+		// If it is still at an earlier height (for instance waiting on a slow finalization),
+		// it catches up through its next round entrance.
 		s.StateMachineViewManager.JumpToRound(s.Committing)
 	}
 }
